@@ -285,7 +285,15 @@ func genExhaustive(r *core.Rand, minN, maxN, variants int, emit func([]string)) 
 					report = nEmptyEOS%97 == 1
 				}
 				core.Count("exhaustive:cases")
-				emit(buildCase(r, report, dirSpec{dir: dir, enc: enc, hdrs: grpcHdrs(dir, enc, false), frames: cutMask(stream, mask), eos: eos}))
+				frames := cutMask(stream, mask)
+				hdrs := grpcHdrs(dir, enc, false)
+				switch r.Intn(8) {
+				case 0, 1: // zero-length frames among the pieces
+					frames = sprinkleEmpty(r, frames, eos, r.Range(1, 2))
+				case 2: // grpc-encoding before content-type
+					hdrs[0], hdrs[1] = hdrs[1], hdrs[0]
+				}
+				emit(buildCase(r, report, dirSpec{dir: dir, enc: enc, hdrs: hdrs, frames: frames, eos: eos}))
 			}
 		}
 	}
@@ -382,7 +390,11 @@ func genMedium(r *core.Rand, streams, maxLen int, allSingle bool, pairs int, emi
 		for j, c := range cuts {
 			eos := pickEOS(r, n)
 			core.Count("medium:cases")
-			emit(buildCase(r, eos == "empty" && j == 0, dirSpec{dir: dir, enc: enc, hdrs: grpcHdrs(dir, enc, r.Bool()), frames: cutAt(stream, c), eos: eos}))
+			frames := cutAt(stream, c)
+			if r.Chance(1, 4) {
+				frames = sprinkleEmpty(r, frames, eos, r.Range(1, 3))
+			}
+			emit(buildCase(r, eos == "empty" && j == 0, dirSpec{dir: dir, enc: enc, hdrs: planFor(r, enc).fields(r, dir), frames: frames, eos: eos}))
 		}
 	}
 }
@@ -391,11 +403,13 @@ func randSpec(r *core.Rand, dir string, maxMsgs, maxLen int) dirSpec {
 	enc := r.Pick(encs...)
 	ms := genMsgs(r, maxMsgs, maxLen)
 	stream := streamOf(enc, ms, []int{0, 1, 9, -2}[r.Intn(4)])
-	hs := grpcHdrs(dir, enc, r.Bool())
-	if enc == "identity" && r.Bool() {
-		hs = grpcHdrs(dir, "", r.Bool()) // no grpc-encoding header at all
+	hs := planFor(r, enc).fields(r, dir)
+	eos := pickEOS(r, len(stream))
+	frames := randomCuts(r, stream)
+	if r.Chance(1, 4) {
+		frames = sprinkleEmpty(r, frames, eos, r.Range(1, 4))
 	}
-	return dirSpec{dir: dir, enc: enc, hdrs: hs, frames: randomCuts(r, stream), eos: pickEOS(r, len(stream))}
+	return dirSpec{dir: dir, enc: enc, hdrs: hs, frames: frames, eos: eos}
 }
 
 func genRandom(r *core.Rand, cases, maxMsgs, maxLen int, emit func([]string)) {
@@ -508,6 +522,9 @@ func (P) Gen(r *core.Rand, tier string, emit func([]string)) {
 		genRandom(r.Fork(), 150, 3, 70000, emit)
 		genRandom(r.Fork(), 6, 2, 1<<20, emit)
 		genMalformed(r.Fork(), 3000, emit)
+		genHeaders(r.Fork(), 12, emit)
+		genEmptyFrames(r.Fork(), 11, 400, emit)
+		genArith(r.Fork(), emit)
 		return
 	}
 	genExhaustive(r.Fork(), 0, 13, 1, emit)
@@ -515,4 +532,7 @@ func (P) Gen(r *core.Rand, tier string, emit func([]string)) {
 	genRandom(r.Fork(), 800, 4, 300, emit)
 	genRandom(r.Fork(), 16, 2, 70000, emit)
 	genMalformed(r.Fork(), 800, emit)
+	genHeaders(r.Fork(), 3, emit)
+	genEmptyFrames(r.Fork(), 10, 60, emit)
+	genArith(r.Fork(), emit)
 }
